@@ -23,6 +23,8 @@ import drive_denoise as dd
 TH_SESSION = ['RB.Denoise.c20_restore_once', 'RB.Denoise.c20_noD_silent',
               'RB.Denoise.c20_restore_after_processes_partial', 'RB.Denoise.c20_no_result_no_restore']
 TH_PAR = ['RB.Denoise.c20_par_restore_once', 'RB.Denoise.c20_interleave_perm']
+TH_DPY = ['RB.Denoise.c20_denoise_restore_undoes', 'RB.Denoise.c20_denoise_roundtrip_standard',
+          'RB.Denoise.c20_denoise_restore_only_to_standard', 'RB.Denoise.c20_denoise_shield_reset_only_if_reported']
 TH_WRAP = ['RB.Denoise.c20_wrap_spec', 'RB.Denoise.c20_wrap_none', 'RB.Denoise.c20_caps_as_reported']
 TH_SHIELD = ['RB.Denoise.c20_shield_range', 'RB.Denoise.c20_shield_range_real', 'RB.Denoise.c20_shieldLo_is_floor_log',
              'RB.Denoise.c20_shield_within_cores']
@@ -426,6 +428,127 @@ def check_cli(ck, scenarios):
                         {'trace': head, 'ending': ending}, ans, TH_SESSION)
 
 
+# ------------------------------------------------------ denoise.py itself
+STANDARD = {'no_turbo': '0', 'perf_max_percent': '25', 'perf_sample_rate': '50000', 'perf_paranoid': '3',
+            'shield': 'off'}      # docs/denoise.md: "the presumed standard state"; governors: powersave
+
+
+def std_value(setting):
+    return 'powersave' if setting.startswith('governor:') else STANDARD[setting]
+
+
+def simulate(acts, host, state):
+    """the effect of a list of observed actions on a dictionary system"""
+    st = dict(state)
+    for a in acts:
+        if a['t'] == 'write':
+            st[a['s']] = a['v']
+        elif a['t'] == 'shield_on' and host['shield_activates']:
+            st['shield'] = 'on'
+        elif a['t'] == 'shield_reset' and host['shield_resets']:
+            st['shield'] = 'off'
+    return st
+
+
+def gen_denoise_py_cases(ck, n_cases, exhaustive=False):
+    rng = ck.rng
+    out = []
+    if exhaustive:
+        for bits in itertools.product([True, False], repeat=11):
+            (nt, mp, sr, pa, cs, act, rst, cn, nice, shield, prof) = bits
+            n = rng.choice([1, 2, 4, 8])
+            gov = [rng.random() < 0.85 for _ in range(n)]
+            out.append({'kind': 'denoise_py', 'n': n, 'nice': nice, 'shield': shield, 'profiling': prof,
+                        'host': {'governor_writable': gov, 'no_turbo_writable': nt, 'max_percent_writable': mp,
+                                 'sample_rate_writable': sr, 'paranoid_writable': pa, 'has_cset': cs,
+                                 'shield_activates': act, 'shield_resets': rst, 'can_nice': cn},
+                        'initial': rng.choice(['standard', 'other'])})
+        return out
+    for _ in range(n_cases):
+        n = rng.choice([1, 2, 3, 4, 8, 16, 64])
+        allw = rng.random() < 0.4
+        gov = [True] * n if allw else [rng.random() < 0.9 for _ in range(n)]
+
+        def w():
+            return True if allw else rng.random() < 0.75
+        out.append({'kind': 'denoise_py', 'n': n, 'nice': rng.random() < 0.5, 'shield': rng.random() < 0.6,
+                    'profiling': rng.random() < 0.5,
+                    'host': {'governor_writable': gov, 'no_turbo_writable': w(), 'max_percent_writable': w(),
+                             'sample_rate_writable': w(), 'paranoid_writable': w(), 'has_cset': rng.random() < 0.7,
+                             'shield_activates': rng.random() < 0.7, 'shield_resets': rng.random() < 0.85,
+                             'can_nice': rng.random() < 0.7},
+                    'initial': rng.choice(['standard', 'other'])})
+    return out
+
+
+def check_denoise_py(ck, cases):
+    import drive_denoise_py as dpy
+    ops, recs = [], []
+    for sc in cases:
+        host, n = sc['host'], sc['n']
+        inp = dict(sc)
+        m = dpy.call('minimize', host, n, sc['nice'], sc['shield'], sc['profiling'])
+        if 'crash' in m:
+            ck.oracle_fail('denoise_py_no_crash', inp, m, {'step': 'minimize'})
+            continue
+        reported_shield = bool(m['result'].get('shielding'))
+        r = dpy.call('restore', host, n, shield=reported_shield)
+        if 'crash' in r:
+            ck.oracle_fail('denoise_py_no_crash', inp, r, {'step': 'restore'})
+            continue
+        ck.impl_traces += 2
+        ck.count('denoise.py:n=%d' % n if n <= 4 else 'denoise.py:n>4')
+        ck.count('denoise.py:profiling' if sc['profiling'] else 'denoise.py:benchmarking')
+        strange = [a for a in m['acts'] + r['acts'] if a['t'].startswith('unexpected')]
+        if strange:
+            ck.oracle_fail('denoise_py_only_documented_settings', inp, {'acts': strange})
+        # ---- oracle: restore brings back the standard value of everything minimize changed
+        settings = ['governor:%d' % i for i in range(n + 2)] + list(STANDARD)
+        if sc['initial'] == 'standard':
+            s0 = dict((k, std_value(k)) for k in settings)
+        else:
+            s0 = dict((k, 'x-' + k) for k in settings)
+        s1 = simulate(m['acts'], host, s0)
+        s2 = simulate(r['acts'], host, s1)
+        if host['shield_resets']:
+            bad = [k for k in settings if s1[k] != s0[k] and s2[k] != std_value(k)]
+            if bad:
+                ck.oracle_fail('restore_undoes_minimize', inp, {'not_restored': bad, 'minimize': m['acts'],
+                                                                'restore': r['acts']}, {'setting': bad[0].split(':')[0]})
+            if sc['initial'] == 'standard' and s2 != s0:
+                ck.oracle_fail('restore_undoes_minimize', inp, {'after': s2, 'minimize': m['acts'],
+                                                                'restore': r['acts']}, {'setting': 'roundtrip'})
+        nonstd = [a for a in r['acts'] if a['t'] == 'write' and a['v'] != std_value(a['s'])]
+        if nonstd:
+            ck.oracle_fail('restore_only_to_standard', inp, {'writes': nonstd})
+        if not reported_shield and any(a['t'] == 'shield_reset' for a in r['acts']):
+            ck.oracle_fail('restore_only_to_standard', inp, {'restore': r['acts']}, {'what': 'shield reset unreported'})
+        # ---- model
+        ops.append({'op': 'c20.denoise_minimize', 'host': host, 'n': n, 'nice': sc['nice'], 'shield': sc['shield'],
+                    'profiling': sc['profiling']})
+        ops.append({'op': 'c20.denoise_restore', 'host': host, 'n': n, 'shield': reported_shield})
+        recs.append((inp, m, r))
+        ck.case(nontrivial_key=('dpy', json.dumps(sc, sort_keys=True)),
+                sample={'denoise.py': [a['t'] for a in m['acts']][:6]} if len(recs) % 150 == 1 else None)
+    answers = ck.model(ops)
+    for i, (inp, m, r) in enumerate(recs):
+        am, ar = answers[2 * i], answers[2 * i + 1]
+        om = {'acts': m['acts'],
+              'result': {'governor_ok': m['result']['scaling_governor'] != 'failed',
+                         'no_turbo_ok': m['result']['no_turbo'] != 'failed',
+                         'perf_ok': m['result']['perf_event_max_sample_rate'] != 'failed',
+                         'can_nice': bool(m['result']['can_set_nice']), 'shielding': bool(m['result']['shielding'])}}
+        orr = {'acts': r['acts'],
+               'result': {'governor_ok': r['result']['scaling_governor'] != 'failed',
+                          'no_turbo_ok': r['result']['no_turbo'] != 'failed',
+                          'perf_ok': r['result']['perf_event_max_sample_rate'] != 'failed',
+                          'shielding': bool(r['result']['shielding'])}}
+        if am != om:
+            ck.disagree('c20.denoise_minimize: _minimize_noise vs RB.Denoise.minimizeActs', inp, om, am, TH_DPY)
+        if ar != orr:
+            ck.disagree('c20.denoise_restore: _restore_standard_settings vs RB.Denoise.restoreActs', inp, orr, ar, TH_DPY)
+
+
 # ------------------------------------------------------- parallel scheduler
 def gen_parallel_scenarios(ck, n):
     rng = ck.rng
@@ -576,6 +699,9 @@ def dispatch(ck, inputs):
     sess = [i for i in inputs if i['kind'] == 'session']
     for i in range(0, len(sess), 120):
         check_sessions(ck, sess[i:i + 120])
+    dp = [i for i in inputs if i['kind'] == 'denoise_py']
+    for i in range(0, len(dp), 400):
+        check_denoise_py(ck, dp[i:i + 400])
     pa = [i for i in inputs if i['kind'] == 'parallel']
     if pa:
         check_parallel(ck, pa)
@@ -606,6 +732,9 @@ def run(ck):
     dispatch(ck, load_corpus())
     dispatch(ck, gen_scenarios(ck, quick))
     dispatch(ck, gen_parallel_scenarios(ck, 16 if quick else 120))
+    dispatch(ck, gen_denoise_py_cases(ck, 300))
+    if not quick:
+        dispatch(ck, gen_denoise_py_cases(ck, 0, exhaustive=True))
     check_shield(ck, 4096)
     if not quick:
         for _ in range(3):
